@@ -303,6 +303,27 @@ def m_pattern_match(interp, self, args, kwargs):
     return o
 
 
+@models.method_model(re.Pattern, 'fullmatch')
+def m_pattern_fullmatch(interp, self, args, kwargs):
+    """assumed: p.fullmatch(s) is not None iff s is in the language of the pattern (only the truth of the
+    result is modelled)"""
+    s = args[0] if args else kwargs.get('string')
+    if isinstance(s, (SOpt, SChoice)):
+        s = interp.resolve(s)
+    if len(args) > 1 or (kwargs and set(kwargs) - {'string'}):
+        raise Unsupported('Pattern.fullmatch with pos / endpos')
+    if isinstance(s, str):
+        return self.fullmatch(s)
+    if not isinstance(s, SStr):
+        from .interp import PyRaise
+        raise PyRaise(TypeError('expected string or bytes-like object'))
+    body, anchor = transcribe(self)
+    interp.st.used_models.add('re.Pattern.fullmatch[%r]' % self.pattern)
+    if not interp.st.fork(wrap(z3.InRe(to_z3(s), body))):
+        return None
+    return new_opaque(interp, Interface, 'fullmatch')
+
+
 def language_of(pattern):
     """z3 regex of the subjects `pattern.match` accepts (for spec functions)"""
     body, anchor = transcribe(pattern)
